@@ -298,10 +298,12 @@ def finish(ctx, level, coverage, assumptions):
     cov.update(ctx.notes)
     ev = dict(property_id=ctx.pid, tier=ctx.tier, seed=ctx.seed, level=level, coverage=cov,
               assumptions=assumptions, wall_s=round(time.time() - ctx.t0, 1), violations=len(vseen))
-    os.makedirs(os.path.join(VERIF, "evidence"), exist_ok=True)
-    tmp = os.path.join(VERIF, "evidence", ".%s.json.tmp%d" % (ctx.pid, os.getpid()))
+    # extension checks (ids X..: behaviour beyond the listed properties) keep their evidence apart
+    evdir = os.path.join(VERIF, "evidence", "extra") if ctx.pid.startswith("X") else os.path.join(VERIF, "evidence")
+    os.makedirs(evdir, exist_ok=True)
+    tmp = os.path.join(evdir, ".%s.json.tmp%d" % (ctx.pid, os.getpid()))
     json.dump(ev, open(tmp, "w"), indent=1, default=str)
-    os.replace(tmp, os.path.join(VERIF, "evidence", "%s.json" % ctx.pid))
+    os.replace(tmp, os.path.join(evdir, "%s.json" % ctx.pid))
     log("%s %s: %s (wall %.0fs, states=%d, bound=%d, known=%d, violations=%d)" % (
         ctx.pid, ctx.tier, "FAIL" if vseen else "ok", time.time() - ctx.t0, cov["states"],
         cov["traces_validated_against_impl"], len(seen), len(vseen)))
